@@ -381,7 +381,7 @@ func runJoe(t *testing.T, sc *jScenario) (tr *jTrace) {
 			// Joe gets its own slices (the scenario's lists are what the oracles read); they have spare
 			// room, and an "alias" list is the previous one extended in place
 			var tp []string
-			if spec.AliasPrev && i > 0 && len(builtTopics[i-1]) > 0 && len(spec.Topics) > len(builtTopics[i-1]) {
+			if spec.AliasPrev && i > 0 && len(builtTopics[i-1]) > 0 && len(spec.Topics) > len(builtTopics[i-1]) && eqStrings(spec.Topics[:len(builtTopics[i-1])], sc.Subs[i-1].Topics) {
 				prev := builtTopics[i-1]
 				tp = append(prev[:len(prev):cap(prev)], spec.Topics[len(prev):]...)
 			} else {
